@@ -14,25 +14,25 @@ RULES = {
  'C10': ('90 string lists (all lists of 0..3 strings over lengths {0,1,2,5}; 256 empty; 300 one-byte; one of 65533 bytes; 255/256 mixed) x requested counts {0,n-1,n,n+1,n+5} x {null, exact-extent} destinations; pack into exactly data_length bytes before a PROT_NONE page, count, unpack', {}),
  'C13': ('15 helpers x {all 2^16 values; 32/64-bit: one-hot, one-cold, two-hot, every ordered pair of byte positions x 65536 contents x 3 backgrounds; thorough: all 2^32 values for the 32-bit helpers}; memory image, to-host inverse, involution, and the helper set of the other preprocessor branch compared as functions (mirror image)', {}),
 }
-ASSUME = ['four worlds: gcc -O2, gcc -O0 (the project\'s default CMake build has no optimisation flag), gcc -O3 -DNDEBUG (CMake Release) and clang -O2', 'the reference encoders follow acf-vss.md / IEEE 1722-2016 literally (DESIGN appendix A/B)', 'other compilers, optimisation levels, placements and host byte orders are C14/C15',
+ASSUME = ['five worlds: gcc -O2, gcc -O0 (the project\'s default CMake build has no optimisation flag), gcc -O3 -DNDEBUG (CMake Release), clang -O2 and clang -O1 with a 32-bit long (LLP64 data model)', 'the reference encoders follow acf-vss.md / IEEE 1722-2016 literally (DESIGN appendix A/B)', 'other compilers, optimisation levels, placements and host byte orders are C14/C15',
           'inputs outside the stated lattices are not executed']
 
 
-def build(prop, opt='-O2', fresh=True, defs=(), cc='gcc'):
+def build(prop, opt='-O2', fresh=True, defs=(), cc='gcc', tag=''):
     b = core.fresh_dir(os.path.join(core.ROOT, 'build', prop)) if fresh else os.path.join(core.ROOT, 'build', prop)
     g = os.path.join(b, 'gen')
     core.run_gen(g)
-    wobjs = core.build_world(os.path.join(b, 'world' + opt + ('' if cc == 'gcc' else '-' + cc)), g, cc=cc, cflags=(opt, '-g'), world_srcs=['wrap_generic.c', 'wrap_ser.c', 'wrap_bo.c'], defines=defs)
+    wobjs = core.build_world(os.path.join(b, 'world' + opt + tag + ('' if cc == 'gcc' else '-' + cc)), g, cc=cc, cflags=(opt, '-g'), world_srcs=['wrap_generic.c', 'wrap_ser.c', 'wrap_bo.c'], defines=defs)
     # the other preprocessor branch of Byteorder.h, as a second set of functions
-    o2 = os.path.join(b, 'world' + opt + ('' if cc == 'gcc' else '-' + cc), 'wrap_bo2.o')
-    o3 = os.path.join(b, 'world' + opt + ('' if cc == 'gcc' else '-' + cc), 'wrap_bo3.o')
+    o2 = os.path.join(b, 'world' + opt + tag + ('' if cc == 'gcc' else '-' + cc), 'wrap_bo2.o')
+    o3 = os.path.join(b, 'world' + opt + tag + ('' if cc == 'gcc' else '-' + cc), 'wrap_bo3.o')
     core.par([[cc, '-std=gnu99', opt, '-g', '-I' + os.path.join(core.REPO, 'include'), '-DW_BO=w_bo2', '-DW_FORCE_BIG', '-Wno-builtin-macro-redefined',
                '-c', os.path.join(core.ROOT, 'world', 'wrap_bo.c'), '-o', o2],
               # a toolchain that does not predefine the byte-order macros (old gcc, some embedded compilers): little-endian host
               [cc, '-std=gnu99', opt, '-g', '-I' + os.path.join(core.REPO, 'include'), '-DW_BO=w_bo3', '-U__BYTE_ORDER__', '-U__ORDER_LITTLE_ENDIAN__', '-U__ORDER_BIG_ENDIAN__',
                '-U__ORDER_PDP_ENDIAN__', '-Wno-builtin-macro-redefined', '-c', os.path.join(core.ROOT, 'world', 'wrap_bo.c'), '-o', o3]])
     nobjs = core.build_native(os.path.join(b, 'native'), g, ['common.c', 'explore_ser.c'])
-    return core.link(os.path.join(b, 'explore_ser' + opt + ('' if cc == 'gcc' else cc)), nobjs + wobjs + [o2, o3])
+    return core.link(os.path.join(b, 'explore_ser' + opt + tag + ('' if cc == 'gcc' else cc)), nobjs + wobjs + [o2, o3])
 
 
 def run(prop, tier):
@@ -45,8 +45,17 @@ def run(prop, tier):
     res = core.run_slices(exe0, ['--suite', prop, '--tier', tier], timeout=1500 if tier == 'thorough' else 600, result=res, tag='-O0')
     exe3 = build(prop, '-O3', fresh=False, defs=('-DNDEBUG',))
     res = core.run_slices(exe3, ['--suite', prop, '--tier', tier], timeout=1500 if tier == 'thorough' else 600, result=res, tag='-O3 -DNDEBUG')
+    if prop in ('C07', 'C08'):
+        # x87 floating-point code generation (the default of 32-bit x86 compilers): loads/stores through float lvalues quiet signalling NaNs
+        exe87 = build(prop, '-O0', fresh=False, defs=('-mfpmath=387',), tag='-x87')
+        res = core.run_slices(exe87, ['--suite', prop, '--tier', tier], timeout=600, result=res, tag='-O0 -mfpmath=387')
     exec_ = build(prop, '-O2', fresh=False, cc='clang')
     res = core.run_slices(exec_, ['--suite', prop, '--tier', tier], timeout=1500 if tier == 'thorough' else 600, result=res, tag='clang -O2')
+    # a host whose long is 32 bits wide (LLP64 data model)
+    from . import llp64
+    bdir = os.path.join(core.ROOT, 'build', prop)
+    exel = llp64.build(bdir, os.path.join(bdir, 'gen'), core.build_native(os.path.join(bdir, 'native'), os.path.join(bdir, 'gen'), ['common.c', 'explore_ser.c']), 'explore_ser')
+    res = core.run_slices(exel, ['--suite', prop, '--tier', tier if prop in ('C06', 'C09', 'C10') else 'quick' if tier == 'thorough' else 'lite'], timeout=1500 if tier == 'thorough' else 600, result=res, tag='llp64 (32-bit long)')
     rule, bounds = RULES[prop]
     core.finish(prop, tier, t0, res, rule=rule, bounds=bounds, assumptions=ASSUME,
                 recipe={'engine': 'ser', 'suite': prop, 'tier': tier}, replayer=make_replayer(exe, tier),
